@@ -257,27 +257,26 @@ func (a *Analyzer) termReads(t *Term, out map[string]bool) {
 	})
 }
 
-var shortIndex map[string][]*ssa.Function
-
 func (a *Analyzer) funcsByShort() map[string][]*ssa.Function {
-	if shortIndex == nil {
-		shortIndex = map[string][]*ssa.Function{}
+	if a.shortIndex == nil {
+		a.shortIndex = map[string][]*ssa.Function{}
 		for _, f := range a.P.Funcs {
-			shortIndex[shortName(f)] = append(shortIndex[shortName(f)], f)
+			a.shortIndex[shortName(f)] = append(a.shortIndex[shortName(f)], f)
 		}
 	}
-	return shortIndex
+	return a.shortIndex
 }
-
-var readsCache = map[*ssa.Function]map[string]bool{}
 
 // readsOf: transitive may-read set of a library function (singleton fields, State, storage logs).
 func (a *Analyzer) readsOf(f *ssa.Function) map[string]bool {
-	if r, ok := readsCache[f]; ok {
+	if a.readsCache == nil {
+		a.readsCache = map[*ssa.Function]map[string]bool{}
+	}
+	if r, ok := a.readsCache[f]; ok {
 		return r
 	}
 	r := map[string]bool{}
-	readsCache[f] = r
+	a.readsCache[f] = r
 	seen := map[*ssa.Function]bool{}
 	var visit func(g *ssa.Function)
 	visit = func(g *ssa.Function) {
